@@ -479,6 +479,13 @@ func (p *parser) primary() *SExpr {
 
 // ---- contracts -------------------------------------------------------------------------------
 
+// AtCall: an assertion on the state in which a callee is entered ($arg0.. are the call's arguments,
+// receiver first; $i is the index of the last completed iteration of the innermost enclosing range loop).
+type AtCall struct {
+	Key    string
+	Clause Clause
+}
+
 type Clause struct {
 	Label string
 	Expr  *SExpr
@@ -528,6 +535,8 @@ type Contract struct {
 	ParamNames []string // functype-derived contracts: the type's parameter names, bound by position
 	CopyFamily bool // a DeepCopy method: contract synthesised from the type declaration (C18)
 	Fresh    bool   // writes only memory allocated in its own activation (checked: frame obligations)
+	RoleKey  string // the key as written when the contract is bound by role (Parent@Role)
+	AtCalls  []AtCall // at-call "key" label: expr - checked in the state right before every call to key made while executing this function
 	Traced   bool     // calls to this function are recorded as ghost facts called!key(args), usable as called("key", args...) in callers' contracts
 	Keeps    []string // struct-name prefixes (e.g. "compiler.") whose fields the function does not write (assumed contracts)
 	Modifies []string
@@ -582,7 +591,7 @@ func (cs *ContractSet) LoadContractText(text, path, pkgName string) error {
 		}
 		switch first {
 		case "spec", "axiom", "lemma", "func", "functype", "fieldfn", "assume-contract", "requires", "assumes", "ensures", "invariant", "ghost", "decreases",
-			"modifies", "keeps", "traced", "nopanic", "pure", "inline", "loop", "inlined-loop", "property", "fresh", "copyof", "callbacks-modify-nothing", "witness":
+			"modifies", "keeps", "traced", "nopanic", "pure", "inline", "loop", "inlined-loop", "property", "fresh", "copyof", "callbacks-modify-nothing", "witness", "at-call":
 			items = append(items, t)
 			lineNo = append(lineNo, i+1)
 		default:
@@ -814,6 +823,17 @@ func (cs *ContractSet) LoadContractText(text, path, pkgName string) error {
 				cur.Inline = true
 			case "traced":
 				cur.Traced = true
+			case "at-call":
+				r := strings.TrimSpace(rest)
+				if !strings.HasPrefix(r, "\"") || strings.Index(r[1:], "\"") < 0 {
+					return fail(i, fmt.Errorf("at-call needs a quoted function key"))
+				}
+				k := strings.Index(r[1:], "\"") + 1
+				c, err := parseClause(strings.TrimSpace(r[k+1:]))
+				if err != nil {
+					return fail(i, err)
+				}
+				cur.AtCalls = append(cur.AtCalls, AtCall{Key: r[1:k], Clause: c})
 			case "keeps":
 				cur.Keeps = append(cur.Keeps, strings.Fields(rest)...)
 			case "fresh":
